@@ -27,6 +27,13 @@ func c03Rules(p *core.Prog, r *core.Run) {
 	if !m.ok(r, "C03.model") {
 		return
 	}
+	c03Splice(p, r, m, "C03")
+}
+
+// c03Splice holds the reconstruction rules; pre is the prefix they are
+// reported under (C03, and C01.inner: a handshake completes only if the
+// backend sees the hello the client hashed).
+func c03Splice(p *core.Prog, r *core.Run, m *echModel, pre string) {
 	fn := m.process
 	r.Analysed(p.FuncName(fn), p.FuncName(m.parseCH), p.FuncName(m.marshal))
 	isInnerObj := func(e *core.Expr) bool {
@@ -39,7 +46,7 @@ func c03Rules(p *core.Prog, r *core.Run) {
 		}
 	}
 	if success == nil {
-		r.Undecided("C03.S3", "process:success", p.Pos(fn.Pos()), "no accepting return")
+		r.Undecided(pre+".S3", "process:success", p.Pos(fn.Pos()), "no accepting return")
 		return
 	}
 
@@ -66,25 +73,26 @@ func c03Rules(p *core.Prog, r *core.Run) {
 				v := p.X(st.Val)
 				fromOuter := v.Op == "field" && v.Obj == m.fCH["LegacySessionID"] && v.Args[0].Val == ssa.Value(m.helloP)
 				uncond := st.Block().Dominates(success.Block())
-				r.Check("C03.S4", "process:session-id", fromOuter && uncond, p.InstrPos(st), "legacy_session_id of the reconstructed hello is the outer hello's (%v), substituted on every path to acceptance (%v)", fromOuter, uncond)
+				r.Check(pre+".S4", "process:session-id", fromOuter && uncond, p.InstrPos(st), "legacy_session_id of the reconstructed hello is the outer hello's (%v), substituted on every path to acceptance (%v)", fromOuter, uncond)
 			case m.fCH["Extensions"]:
 				extStore = st
 			default:
-				r.Check("C03.S4", "process:store-"+x.Name, false, p.InstrPos(st), "field %s of the reconstructed hello is modified after its parse", x.Name)
+				r.Check(pre+".S4", "process:store-"+x.Name, false, p.InstrPos(st), "field %s of the reconstructed hello is modified after its parse", x.Name)
 			}
 		}
 	}
-	r.Check("C03.S4", "process:session-id-substituted", nSid == 1, p.Pos(fn.Pos()), "exactly one substitution of legacy_session_id (found %d)", nSid)
+	r.Check(pre+".S4", "process:session-id-substituted", nSid == 1, p.Pos(fn.Pos()), "exactly one substitution of legacy_session_id (found %d)", nSid)
 	if extStore == nil {
-		r.Check("C03.S1", "process:splice-store", false, p.Pos(fn.Pos()), "the spliced extension list is never stored into the reconstructed hello")
+		r.Check(pre+".S1", "process:splice-store", false, p.Pos(fn.Pos()), "the spliced extension list is never stored into the reconstructed hello")
 		return
 	}
-	r.Check("C03.S3", "process:splice-store", extStore.Block().Dominates(success.Block()), p.InstrPos(extStore), "the spliced list is stored on every path to acceptance")
+	r.Check(pre+".S3", "process:splice-store", extStore.Block().Dominates(success.Block()), p.InstrPos(extStore), "the spliced list is stored on every path to acceptance")
 
 	// S1: provenance of the stored list
 	fresh := true
 	why := ""
 	nApp := 0
+	chain := map[*ssa.Call]bool{}
 	seen := map[ssa.Value]bool{}
 	var visit func(v ssa.Value)
 	visit = func(v ssa.Value) {
@@ -104,6 +112,7 @@ func c03Rules(p *core.Prog, r *core.Run) {
 		case *ssa.Call:
 			if bi, ok := v.Call.Value.(*ssa.Builtin); ok && bi.Name() == "append" {
 				nApp++
+				chain[v] = true
 				visit(v.Call.Args[0])
 				return
 			}
@@ -126,7 +135,7 @@ func c03Rules(p *core.Prog, r *core.Run) {
 		}
 	}
 	visit(extStore.Val)
-	r.Check("C03.S1", "process:new-list-fresh", fresh && nApp >= 2, p.InstrPos(extStore), "the spliced list is built from nil by append only (%d append sites) and shares no backing array with the list being read %s", nApp, why)
+	r.Check(pre+".S1", "process:new-list-fresh", fresh && nApp >= 2, p.InstrPos(extStore), "the spliced list is built from nil by append only (%d append sites) and shares no backing array with the list being read %s", nApp, why)
 
 	// the non-marker append: element is inner.Extensions[i] of a forward range
 	nonMarker := 0
@@ -164,15 +173,26 @@ func c03Rules(p *core.Prog, r *core.Run) {
 						}
 					}
 					notMarker := core.HasFact(p.Facts(c.Block()), "!=", `.*\.Type`, "64768")
-					r.Check("C03.S1", "process:copy-inner-extension", forward && notMarker, p.InstrPos(c), "every extension of the decrypted hello other than the marker (%v) is appended itself, at the position of a single forward range (%v)", notMarker, forward)
+					r.Check(pre+".S1", "process:copy-inner-extension", forward && notMarker, p.InstrPos(c), "every extension of the decrypted hello other than the marker (%v) is appended itself, at the position of a single forward range (%v)", notMarker, forward)
 				}
 			}
 		}
 	}
-	r.Check("C03.S1", "process:copy-site", nonMarker == 1, p.Pos(fn.Pos()), "exactly one site copies the decrypted hello's own extensions (found %d)", nonMarker)
+	r.Check(pre+".S1", "process:copy-site", nonMarker == 1, p.Pos(fn.Pos()), "exactly one site copies the decrypted hello's own extensions (found %d)", nonMarker)
 
 	// --- S2
-	refCursor(p, r, m, "C03.S2")
+	refCursor(p, r, m, pre+".S2")
+	// the referenced outer extensions go into the very list under construction, at
+	// the marker's position (not into a side list that is attached later)
+	inPlace := false
+	for c := range chain {
+		for _, a := range variadicArgs(p, c.Call.Args[1]) {
+			if a.Op == "index" && a.Args[0].Op == "field" && a.Args[0].Obj == m.fCH["Extensions"] && a.Args[0].Args[0].Val == ssa.Value(m.helloP) {
+				inPlace = true
+			}
+		}
+	}
+	r.Check(pre+".S2", "process:in-place", inPlace, p.InstrPos(extStore), "each referenced outer extension is appended directly to the list being built, where the marker stood")
 
 	// --- S3: re-parse after the splice, before acceptance
 	re := callSites(p, []*ssa.Function{fn}, `\(\*ech\.clientHello\)\.parseExtensions`)
@@ -187,11 +207,11 @@ func c03Rules(p *core.Prog, r *core.Run) {
 				checked = true
 			}
 		}
-		r.Check("C03.S3", "process:reparse", onInner && after && dom && checked, p.InstrPos(c), "the reconstructed hello is re-parsed (on it: %v) after the splice (%v), on every path to acceptance (%v), and acceptance requires the re-parse to succeed (%v)", onInner, after, dom, checked)
+		r.Check(pre+".S3", "process:reparse", onInner && after && dom && checked, p.InstrPos(c), "the reconstructed hello is re-parsed (on it: %v) after the splice (%v), on every path to acceptance (%v), and acceptance requires the re-parse to succeed (%v)", onInner, after, dom, checked)
 		retInner := isInnerObj(p.X(success.Results[0]))
-		r.Check("C03.S3", "process:returns-reconstructed", retInner, p.InstrPos(success), "the hello returned on acceptance is the reconstructed one")
+		r.Check(pre+".S3", "process:returns-reconstructed", retInner, p.InstrPos(success), "the hello returned on acceptance is the reconstructed one")
 	} else {
-		r.Check("C03.S3", "process:reparse", false, p.Pos(fn.Pos()), "expected exactly one re-parse of the extensions, found %d", len(re))
+		r.Check(pre+".S3", "process:reparse", false, p.Pos(fn.Pos()), "expected exactly one re-parse of the extensions, found %d", len(re))
 	}
 
 	// the re-parse starts from a clean slate: every derived field is reset
@@ -213,9 +233,9 @@ func c03Rules(p *core.Prog, r *core.Run) {
 				}
 			}
 		}
-		r.Check("C03.S3", "parseExtensions:reset-"+name, ok, p.Pos(m.parseExt.Pos()), "parseExtensions clears %s before it walks the extensions (an accepted inner hello is parsed twice; without the reset values of the first parse leak into the second)", name)
+		r.Check(pre+".S3", "parseExtensions:reset-"+name, ok, p.Pos(m.parseExt.Pos()), "parseExtensions clears %s before it walks the extensions (an accepted inner hello is parsed twice; without the reset values of the first parse leak into the second)", name)
 	}
 
 	// --- S5: grammar agreement (shared)
-	clientHelloGrammar(p, r, "C03.S5")
+	clientHelloGrammar(p, r, pre+".S5")
 }
